@@ -231,3 +231,76 @@ Example C14_acl_large_community_needs_its_line :
   mrow_covered av_arista acl_community_arista r = true /\
   mrow_covered av_arista (acl_without "ip large-community-list" acl_community_arista) r = false.
 Proof. exact large_community_needs_its_line. Qed.
+
+(* ================================================================ generator objects run more than once *)
+
+(* "A generator's output depends only on its inputs, not on earlier runs" (Spec/P_C14h.v).  The model is a
+   function of (vendor, program); a Python generator object is run again for the next device
+   (PartialGenerator.__call__ re-initialises _rows/_indents).  [history_free step s0]: whatever was run
+   before, a run gives what the first run of a new object gives.  The correspondence run builds the objects
+   of a session once, runs them for 2-3 devices in sequence, evaluates every predicate of P_C14 on EVERY
+   run and lets Coq compare each run with a run of new objects on the same inputs (P_C14_indep). *)
+From Annet Require Import Spec.P_C14h Proofs.RplSession.
+
+(* a session of a history-free object is the list of first runs of new objects ... *)
+Theorem C14_session_runs :
+  forall (S I O : Type) (step : S -> I -> O * S) (s0 : S),
+    history_free step s0 -> forall xs, runs step s0 xs = map (fun x => fst (step s0 x)) xs.
+Proof. exact runs_history_free. Qed.
+Print Assumptions C14_session_runs.
+
+(* ... so every law of single runs holds of every run of every session *)
+Theorem C14_session_law :
+  forall (S I O : Type) (step : S -> I -> O * S) (s0 : S) (P : I -> O -> bool) (dom : I -> bool),
+    history_free step s0 ->
+    (forall x, dom x = true -> P x (fst (step s0 x)) = true) ->
+    forall xs, forallb dom xs = true ->
+      forallb (fun xo => P (fst xo) (snd xo)) (combine xs (runs step s0 xs)) = true.
+Proof. exact session_law. Qed.
+Print Assumptions C14_session_law.
+
+(* the model's generators are history free (they have no state), hence C14_refs_defined on every run of
+   every session, for any sequence of vendors and programs inside its guards *)
+Theorem C14_model_history_free : forall fx, history_free (model_step fx) tt.
+Proof. exact model_history_free. Qed.
+Print Assumptions C14_model_history_free.
+
+Theorem C14_session_refs_defined :
+  forall fx (xs : list (vendor * prog)),
+    forallb sess_dom xs = true ->
+    forallb (fun xo => refs_defined_run (fst xo) (snd xo)) (combine xs (runs (model_step fx) tt xs)) = true.
+Proof. exact session_refs_defined. Qed.
+Print Assumptions C14_session_refs_defined.
+
+(* non-vacuity: arista, arista again, then huawei — all inside the guard *)
+Example C14_session_guard_met :
+  let xs := [(Arista, Prog c14_envx (c14_polx Arista)); (Arista, Prog c14_envx (c14_polx Arista));
+             (Huawei, Prog c14_envx (c14_polx Huawei))] in
+  forallb sess_dom xs = true /\ List.length (runs (model_step patched) tt xs) = 3.
+Proof. vm_compute. split; reflexivity. Qed.
+
+(* The clause is necessary: an object that keeps the set of prefix-list names it has emitted between runs
+   (in the tree the set is a local of run_huawei / run_arista) gives exactly the model's output on its
+   first run — for every input — and on the second run of the same inputs the policy still refers to the
+   prefix lists while the list generator defines none: not history free, refs_defined is false. *)
+Theorem C14_persisted_names_first_run_is_model :
+  forall fx x, fst (persisted_names_step fx [] x) = fst (model_step fx tt x).
+Proof. exact persisted_first_run. Qed.
+Print Assumptions C14_persisted_names_first_run_is_model.
+
+Theorem C14_persisted_names_refuted :
+  exists x : vendor * prog,
+    sess_dom x = true /\
+    match runs (persisted_names_step patched) [] [x; x] with
+    | [o1; o2] => refs_defined_run x o1 = true /\ refs_defined_run x o2 = false
+    | _ => False
+    end /\
+    ~ history_free (persisted_names_step patched) [].
+Proof.
+  exists (Arista, Prog c14_envx (c14_polx Arista)).
+  split; [vm_compute; reflexivity|]. split; [vm_compute; split; reflexivity|].
+  apply (not_history_free _ _ _ (persisted_names_step patched) []
+                          [(Arista, Prog c14_envx (c14_polx Arista))] (Arista, Prog c14_envx (c14_polx Arista))).
+  vm_compute. discriminate.
+Qed.
+Print Assumptions C14_persisted_names_refuted.
